@@ -82,6 +82,7 @@ type c02Run struct {
 	inflight []string // per sender: the item kind the harness handed to it ("ev" | "wm" | "bar <id>")
 	failNext bool     // the fake job fails the next acknowledgement
 	deploys  int
+	ckIDs    map[uint64]bool // checkpoint ids written to the DKV in this deployment
 	active   []bool // senders that have not sent SourceComplete in this deployment
 	gone     bool   // the operator stopped itself (no active source left)
 }
@@ -210,7 +211,18 @@ func (j *c02Job) DeregisterOperator(context.Context, *jobpb.NodeIdentity) error 
 
 func (j *c02Job) OperatorCheckpointComplete(ctx context.Context, req *snapshotpb.OperatorCheckpoint) error {
 	r := j.r
+	r.mu.Lock()
+	dup := r.ckIDs[req.CheckpointId]
+	if r.ckIDs == nil {
+		r.ckIDs = map[uint64]bool{}
+	}
+	r.ckIDs[req.CheckpointId] = true
+	r.mu.Unlock()
 	desc := func() (out string) {
+		if dup {
+			// the DKV looks a checkpoint up by id: a second one with a reused id cannot be read back
+			return "S(" + strconv.FormatUint(req.CheckpointId, 10) + "|dup)"
+		}
 		defer func() {
 			if p := recover(); p != nil {
 				out = "S(" + strconv.FormatUint(req.CheckpointId, 10) + "|unreadable " + strings.ReplaceAll(fmt.Sprint(p), " ", "_") + ")"
@@ -648,6 +660,7 @@ func c02Impl(c lib.Case) []string {
 		case len(f) == 1 && f[0] == "redeploy":
 			r.mu.Lock()
 			r.deploys++
+			r.ckIDs = nil
 			r.mu.Unlock()
 			if err := deploy(); err != nil {
 				res = "deploy-error:" + c02Err(err)
@@ -726,7 +739,15 @@ func c02Count(out []string) {
 		c02Stats["snapshots_read_back"] += strings.Count(o, "S(")
 		c02Stats["handler_calls"] += strings.Count(o, "H(")
 		c02Stats["barriers_rejected"] += strings.Count(o, "reject:")
-		c02Stats["timer_firings"] += strings.Count(o, "(t:") + strings.Count(o, ",t:")
+		c02Stats["timer_firings"] += strings.Count(o, "|t:") + strings.Count(o, ",t:")
+		c02Stats["failed_acks"] += strings.Count(o, "ackfail:")
+		c02Stats["source_completes"] += strings.Count(o, "completed")
+		if strings.HasPrefix(o, "redeployed:") {
+			c02Stats["redeploys"]++
+			if o != "redeployed:" {
+				c02Stats["redeploys_turning_parked_senders_away"]++
+			}
+		}
 		if strings.Contains(o, "rel:") && !strings.HasSuffix(o, "rel:") {
 			c02Stats["completions_releasing_parked_senders"]++
 		}
